@@ -914,6 +914,14 @@ where
                     }
                 };
 
+                // Private repositories are not part of our inventory. If the repository was
+                // made private since it was added, remove it and announce the new inventory.
+                if doc.is_private() {
+                    if let Err(e) = self.remove_inventory(&id) {
+                        error!(target: "service", "Error removing private repository {id} from inventory: {e}");
+                    }
+                }
+
                 match self.announce_own_refs(id, doc) {
                     Ok(refs) => match refs.as_slice() {
                         &[refs] => {
@@ -1177,6 +1185,11 @@ where
 
                     if let Err(e) = self.add_inventory(rid) {
                         error!(target: "service", "Error announcing inventory for {rid}: {e}");
+                    }
+                } else if doc.is_private() {
+                    // The repository may have been public when it was added to our inventory.
+                    if let Err(e) = self.remove_inventory(&rid) {
+                        error!(target: "service", "Error removing private repository {rid} from inventory: {e}");
                     }
                 }
 
